@@ -1,18 +1,18 @@
 SPECIFICATION MCSpec
 CONSTANTS
   InstOf <- Ident
-  W = 8
-  Widths = {0, 1, 2, 3, 4, 5, 6, 7, 8}
-  NThreads = {2, 3}
-  Menu = {"near", "ef"}
+  W = 64
+  Widths = {3, 5, 13, 33, 63}
+  NThreads = {4}
+  Menu = {"field"}
   AllValues = FALSE
-  Rots = {0, 1}
-  PatSet = {"ones", "alt"}
-  Boundaries = {1}
-  NearFields = 4
-  EFN = {2, 3}
+  Rots = {0, 1, 2}
+  PatSet = {"zeros", "ones", "alt"}
+  Boundaries = {1, 2}
+  NearFields = 0
+  EFN = {}
   EFMaxThreads = 3
-  MaxT = 3
+  MaxT = 4
   Export = FALSE
 VIEW View
 INVARIANTS InstancesOK TypeOK NoOOB Frame NoInterference SwapLinearizable EqualsSequential
